@@ -415,8 +415,9 @@ impl Keyword {
         let mut regex_str = regex::escape(&self.0).replace(' ', "\\s");
 
         if self.1 == KeywordType::Wildcard {
-            // a bare keyword matches case-insensitively, a quoted one is case-sensitive
-            regex_str.insert_str(0, "(?i)");
+            // a bare keyword matches case-insensitively, a quoted one is case-sensitive;
+            // a wildcard stands for any text, line breaks inside a field value included
+            regex_str.insert_str(0, "(?is)");
             regex_str = regex_str.replace("\\*", "(.*?)");
             // If it ends with a star, we need to ensure we read until the end.
             if self.0.ends_with('*') {
